@@ -18,11 +18,15 @@ import tagger_hooks as th
 CONTIG_OF_JOB = {1: '*', 2: 'chrA', 3: 'chrB'}
 
 
-def layout_for(size, mixed=False):
+def layout_for(size, mixed=False, damaged=None):
     """size = [n unplaced molecules, molecules on chrA, molecules on chrB]; big contigs only, so that the plan of the
     contig-per-process mode is complete whatever the plan code does with small contigs. mixed: the D4-sensitive shape."""
     contigs = [{'name': 'chrA', 'len': 250_000, 'big': True, 'kinds': ['pair'] * size[1]},
                {'name': 'chrB', 'len': 100_000, 'big': True, 'kinds': ['pair_rev'] * size[2]}]
+    if damaged:      # one read pair without SM/RX tags and without demultiplexing information in its name, at position k of n
+        kinds = contigs[0]['kinds']
+        at = {'first': 0, 'mid': len(kinds) // 2 + (len(kinds) % 2), 'last': len(kinds)}[damaged]
+        kinds.insert(at, 'untagged')
     if mixed:
         contigs = [{'name': 'sc1', 'len': 2500, 'big': False, 'kinds': ['pair']},
                    {'name': 'sc2', 'len': 40_000, 'big': False, 'kinds': ['single']}] + contigs
@@ -51,7 +55,7 @@ def fault_for(s):
         else:
             site = {'idle': ('job', 'before', 1), 'closed': ('rehead', 'before', 1), 'rg': ('rehead', 'after', 1),
                     'sorted': ('sort', 'after', 1), 'indexed': ('index', 'after', 1), 'clean': ('sbf_exit', 'after', 1)}[wpc]
-        return {'proc': proc, 'site': site[0], 'when': site[1], 'nth': site[2], 'kind': kind}, kind == 'kill'
+        return {'proc': proc, 'site': site[0], 'when': site[1], 'nth': site[2], 'kind': kind}, kind in ('kill', 'interrupt')
     common = {'start': P('status', 'before', 1), 'verify': P('verify', 'before'), 'rmold': P('verify', 'after'),
               'openin': P('getref', 'before')}
     if at in common:
@@ -77,10 +81,10 @@ def fault_for(s):
     return f, False
 
 
-def make_case(cid, workdir, s, method, bamseed, mixed=False):
+def make_case(cid, workdir, s, method, bamseed, mixed=False, damaged=None):
     cdir = os.path.join(workdir, 'case_%s' % cid)
     os.makedirs(cdir, exist_ok=True)
-    layout = layout_for(s['size'], mixed)
+    layout = layout_for(s['size'], mixed, damaged)
     inp = os.path.join(cdir, 'in.bam')
     truth = tg.write(inp, layout, random.Random(bamseed), method)
     out = os.path.join(cdir, 'out.bam')
@@ -89,7 +93,7 @@ def make_case(cid, workdir, s, method, bamseed, mixed=False):
         argv += ['--multiprocess', '-tagthreads', '2', '-temp_folder', cdir]
     fault, hang = fault_for(s)
     return {'id': cid, 'argv': argv, 'out': out, 'inp': inp, 'truth': truth, 'layout': layout, 'scn': s, 'method': method,
-            'fault': fault, 'expect_hang': hang, 'prerun': bool(s['prev']), 'bamseed': bamseed, 'mixed': mixed, 'snapshots': True}
+            'fault': fault, 'expect_hang': hang, 'prerun': bool(s['prev']), 'bamseed': bamseed, 'mixed': mixed, 'damaged': damaged or '', 'snapshots': True}
 
 
 def strip(o):
@@ -108,6 +112,7 @@ def events_for(case, res, tid):
         del r['rg'], r['flag']
     pe = res['events']['parent']
     base = {'tid': tid, 'pipeline': case['scn']['pipeline'], 'method': case['method'], 'scn': case['scn'], 'mixed': case['mixed'],
+            'damaged': case['damaged'],
             'bamseed': case['bamseed'], 'fault': {k: v for k, v in (case['fault'] or {}).items() if k != 'soft'} or {'site': 'none'}}
     evs = []
     writes = [e for e in pe if e['ev'] == 'status_write']
@@ -135,7 +140,8 @@ def main():
     cases = []
     unrealisable = []
     if replay:
-        cases.append(make_case(1, workdir, replay['scn'], replay['method'], replay['bamseed'], replay.get('mixed', False)))
+        cases.append(make_case(1, workdir, replay['scn'], replay['method'], replay['bamseed'], replay.get('mixed', False),
+                               replay.get('damaged') or None))
     else:
         for k, s in enumerate(scns):
             if s['at'].startswith('worker:') and s['job'] >= 2 and s['size'][s['job'] - 1] == 0:
@@ -149,6 +155,12 @@ def main():
             if s['at'] == 'done' and s['kind'] == 'none' and s['pipeline'] == 'multi':
                 # the same finished run on a layout with small contigs (the plan of the contig-per-process mode matters)
                 cases.append(make_case(len(cases) + 1, workdir, s, 'nla', rng.randrange(1 << 30), mixed=True))
+            if s['at'] == 'done' and s['kind'] == 'none' and s['tries'] == 0:
+                # data-driven failure: the input holds a read that cannot be assigned to a cell (no SM tag, no demultiplexing
+                # information in its name) at position k of n - no fault is injected
+                for pos in ('first', 'mid', 'last'):
+                    for m in ('nla', 'chic'):
+                        cases.append(make_case(len(cases) + 1, workdir, s, m, rng.randrange(1 << 30), damaged=pos))
     results = th.run_cases(cases, workdir, parallel=8, timeout=90, hang_timeout=6 if tier == 'quick' else 10)
     n_fired = 0
     with open(outp, 'w') as f:
